@@ -47,7 +47,10 @@ let handle kind c =
     let uv = next_bool c in
     let crash = next_bool c in
     let upload = next_bool c in
-    let mode = next_bytes c in
+    let file = (match next c with
+        | "N" -> None | "F" -> Some (next_bytes c)
+        | t -> failwith ("bad mode file tag " ^ t)) in
+    let mode = mode_of_file file in
     let ld = next_bool c in
     let tok = read_token c in
     let exit = next_int c in
@@ -59,7 +62,7 @@ let handle kind c =
     ignore mset;
     let cfg = { c_crash = crash; c_upload = upload } in
     (* model vs implementation *)
-    let r = program_run_env entry cfg_dir env_dir marker uv cfg mode ld period now0 tok in
+    let r = program_run_file entry cfg_dir env_dir marker uv cfg file ld period now0 tok in
     let emode = effective_mode (dir_known cfg_dir env_dir) mode in
     let want_outcome = match r.r_outcome with
       | OReturned -> "returned" | OChildExit -> "exit0-in-start" | OFatal -> "fatal" in
@@ -68,7 +71,7 @@ let handle kind c =
       else if exit = 0 then "exit0-in-start"
       else if exit = 1 then "fatal" else Printf.sprintf "exit%d" exit in
     check_eq "outcome" (fun s -> s) want_outcome got_outcome;
-    let want = spawned_env fuel entry cfg_dir env_dir marker uv cfg mode ld period now0 tok in
+    let want = spawned_file fuel entry cfg_dir env_dir marker uv cfg file ld period now0 tok in
     (* the crash monitor of a sidecar exits the process as soon as its parent
        is gone, possibly before the uploader ran the go command: with crash
        reporting on, the delegated process is optional *)
@@ -92,8 +95,8 @@ let handle kind c =
     if (not m_writes) && changed then diff "dir-unchanged" ~model:"unchanged" ~impl:"changed";
     (* the property on the observations *)
     let detail () =
-      Printf.sprintf "dir=%s entry=%s marker=\"%s\" upload_var=%b crash=%b upload=%b mode=\"%s\" token=%s procs=%s token_created=%b dir_changed=%b"
-        src (match entry with EntryStart -> "Start" | EntryMaybeChild -> "MaybeChild-then-Start") (esc marker) uv crash upload (esc mode)
+      Printf.sprintf "dir=%s entry=%s marker=\"%s\" upload_var=%b crash=%b upload=%b mode-file=%s token=%s procs=%s token_created=%b dir_changed=%b"
+        src (match entry with EntryStart -> "Start" | EntryMaybeChild -> "MaybeChild-then-Start") (esc marker) uv crash upload (match file with None -> "(none)" | Some d -> "\"" ^ esc d ^ "\" (reads as \"" ^ esc mode ^ "\")")
         (match tok with None -> "absent" | Some m -> "age " ^ tok_of_z (Z.opp m) ^ "ns")
         (show_procs procs) tok_created changed in
     if not (start_ok marker uv cfg emode period now0 tok tok_created changed procs) then begin
